@@ -5,7 +5,9 @@ From V.C19 Require Import Model.
 Import ListNotations.
 Local Open Scope N_scope.
 
-Inductive hop := HAdd (i pre parent : N) | HRemoveLast | HRemoveFrom (h : N) | HRestart.
+Inductive hop := HAdd (i pre parent : N) | HRemoveLast | HRemoveFrom (h : N) | HRestart
+  | HFork (h : N) (gs : list (N * N * N))     (* fork groups (id, pre, parent), heights h+1, h+2, ... *)
+  | HDrop (ids : list N).
 
 Definition J (i pre parent h : N) : option group := Some (mkG i pre parent h).
 Definition X : option group := None.
@@ -37,6 +39,8 @@ Definition op_of (o : hop) : op :=
   | HRemoveLast => RemoveLast
   | HRemoveFrom h => RemoveFrom h
   | HRestart => Restart
+  | HFork h gs => ForkSwitch h (map (fun g => let '(i, p, q) := g in mkG i p q 0) gs)
+  | HDrop ids => DropIndex ids
   end.
 
 Definition genesis : group := mkG 1 0 0 0.
